@@ -89,7 +89,10 @@ func c03InDomain(v interface{}, top bool) bool {
 		for k, e := range t {
 			isAttr := strings.HasPrefix(k, "-")
 			if isAttr || k == "#text" {
-				if top {
+				// (at the top of a Map these are the attributes / text of the root element, which then carries the
+				// default root tag - also when such an entry is the Map's only one: until the fourth bug-hunt round
+				// every Map with such an entry at the top was left out)
+				if top && len(t) > 1 {
 					return false
 				}
 				switch e.(type) {
@@ -130,7 +133,7 @@ func c03Expected(v interface{}, enc string, tags []string) map[string]interface{
 		if !ok {
 			return nil
 		}
-		if len(m) == 1 {
+		if len(m) == 1 && !c03OnlyAttrOrText(m) {
 			for k, e := range m {
 				if _, isList := e.([]interface{}); isList {
 					return nil // a single-key map whose value is a list is outside the quantifier
